@@ -1,0 +1,10 @@
+//go:build verif
+
+// Package netstack: machine-checked contracts (comment-only; read by /verif/govc).
+package netstack
+
+// The local API network stack (gVisor) is outside every property: packets handed to it are assumed to be consumed
+// without touching router state.
+//@ func NetStack.SubmitPacket
+//@   option trusted
+//@   modifies nothing
